@@ -278,7 +278,7 @@ def mon_conn(ops, impl):
         if w[0] == "cn_target":
             out.append((i, "mon_cn target " + w[1]))
         if w[0] == "cn_note" and len(w) == 4 and w[1] == "c09":
-            out.append((i, "mon_cn verdict" if w[2] == "verdict" else f"mon_cn expect {w[2]} {w[3]}"))
+            out.append((i, "mon_cn verdict" if w[2] == "verdict" else ("mon_cn probe" if w[2] == "probe" else f"mon_cn expect {w[2]} {w[3]}")))
         # C13: what the receive API handed to the application
         if w[0] in ("cn_resp", "cn_accept") and r.startswith("ok:"):
             sid = slots[int(w[1])] if w[0] == "cn_resp" and int(w[1]) < len(slots) else (slots[-1] if slots else 0)
